@@ -6,7 +6,8 @@ from engine.core import shard_map
 from engine.tlc import MachineryError
 
 MUTANTS = [("MUT_Sections_found_off_by_one.cfg", "PastEndIsFeedback"), ("MUT_Sections_runtime_no_offset.cfg", "WholeFileLines"),
-           ("MUT_Sections_offset_not_cleared.cfg", "WholeFileLines")]
+           ("MUT_Sections_offset_not_cleared.cfg", "WholeFileLines"),
+           ("MUT_Sections_stale_offset.cfg", "WholeFileNoOffset")]
 
 
 def run(prop, tier, seed, ctx):
